@@ -197,6 +197,8 @@ type ScenCase struct {
 	Shots []Shot `json:"shots"`
 	// gun option `redirect: true`; a Shot whose behaviour has a Redir answers its step with redirects in either case
 	Redirect bool `json:"redirect,omitempty"`
+	// gun option `httptrace` (see HTTPTrace)
+	HTTPTrace HTTPTrace `json:"httptrace"`
 }
 
 // Shot: which step of this invocation misbehaves (-1 none) and how.
@@ -240,6 +242,7 @@ func genScen(t *rapid.T) ScenCase {
 		}
 		c.Shots = append(c.Shots, s)
 	}
+	c.HTTPTrace = genHTTPTrace(t)
 	return c
 }
 
@@ -370,11 +373,13 @@ func checkScen(c ScenCase, o *vf.Obs) error {
 	defer pand.Remove(name)
 	out := pand.TempName("c19s", ".phout")
 	defer pand.Remove(out)
+	// no keep-alive: a reset/close then hits a fresh connection and Go's transport does not silently retry
+	gun := map[string]any{"type": "http/scenario", "target": tg.Addr(), "response-header-timeout": "400ms", "disable-keep-alives": true,
+		"redirect": c.Redirect}
+	c.HTTPTrace.apply(gun)
 	pool := map[string]any{
-		"id": "p",
-		// no keep-alive: a reset/close then hits a fresh connection and Go's transport does not silently retry
-		"gun":     map[string]any{"type": "http/scenario", "target": tg.Addr(), "response-header-timeout": "400ms", "disable-keep-alives": true,
-			"redirect": c.Redirect},
+		"id":      "p",
+		"gun":     gun,
 		"ammo":    map[string]any{"type": "http/scenario", "file": name, "limit": len(c.Shots)},
 		"result":  map[string]any{"type": "phout", "destination": out},
 		"rps":     map[string]any{"type": "once", "times": len(c.Shots) + 5},
@@ -389,7 +394,7 @@ func checkScen(c ScenCase, o *vf.Obs) error {
 		err = fmt.Errorf("the run was aborted: %v", runErr)
 	}
 	if err != nil {
-		return fmt.Errorf("%v\nshots %+v\n%s", err, c.Shots, scenarioYAML(c))
+		return fmt.Errorf("%v\nhttptrace %+v, shots %+v\n%s", err, c.HTTPTrace, c.Shots, scenarioYAML(c))
 	}
 	lines, data, err := readPhout(out)
 	if err != nil {
@@ -482,6 +487,7 @@ func checkScen(c ScenCase, o *vf.Obs) error {
 	o.ClassIf(anyNeg, "substr_negative_index")
 	o.ClassIf(anyBeyond, "substr_negative_index_beyond_value")
 	o.ClassIf(c.Redirect, "redirect_option_on")
+	c.HTTPTrace.classes(o, lines)
 	rs.classes(o, "scenario_gun")
 	if mis > 0 && goodAfter {
 		o.NonTrivial()
